@@ -96,6 +96,14 @@ func ardop.(*broadcaster).Listen(b) (r)
 # synchronously before the next frame is taken - so PTT requests reach the controller in
 # order.  The only thing it may start asynchronously is the disconnect after a full-buffer
 # timeout.  (Index/assertion safety of this body is not part of this contract.)
+# The listener goroutine: an inbound connection is marked connected (so that the event loop
+# stops discarding its ARQ data) BEFORE it is handed to Accept, and what is handed over is the
+# connection just created for it.  (Safety of this body is not part of this contract.)
+func ardop.(*TNC).Listen$1() ()
+  props C14
+  nosafety
+  at send#2 requires connected-before-handover: tnc.connected && tnc.data != nil
+
 ghost var gFrameNo int
 ghost var gIsARQ bool
 ghost var gConnAtFrame bool
